@@ -16,6 +16,11 @@ From BB Require Import BN Brute SpaceFacts TrapFacts PercolateFacts AttractorFac
   Strict PetriNet Control Meta FilterFacts PetriNetFacts TrappistFacts DiagramStruct DiagramSem1 DiagramCache
   DiagramDepth DiagramComplete Termination ControlFacts MetaFacts Candidates StrictFacts MinExpandFacts CandidatesFacts SymbolicTest SymbolicTestFacts Signed ReductionFacts ControlFacts2 Main Blocks BlocksFacts ObsFacts OwnerFacts CandidatesTerm
   PartialOwner BlockMath BlockComplete ASeeds ASeedsFacts LogChecks SkipRule SkipRuleFacts Names NamesFacts Perm PermFacts SCC SCCFacts SCCStruct ControlFacts3 SCCTerm FilterSym Main2 StrategyFacts ControlFacts4 SkipRuleFacts2 SCCComplete SCCAttr BlockComplete2 ControlFacts5 Iso SkipSem ControlFacts6.
+From BB Require Import Filter PySrcFilter PySrcFilterFacts.
+
+(* translator tie for the candidate filter: the function GENERATED from the current text of attractor_symbolic.compute_attractors_symbolic (loop translated statement by statement, preamble / postamble compared with reference texts) is the model's compute_attractors_filter: seeds and sets are produced together, in candidate order *)
+Theorem C12_source_compute_attractors_symbolic : forall (N : net) (seeds_only : bool) (motifs : list space) (cands : list state), py_compute_attractors_symbolic N seeds_only motifs cands = Some (compute_attractors_filter N seeds_only motifs cands).
+Proof. exact py_compute_attractors_symbolic_spec. Qed.
 
 Theorem C12_check_sets_ok : forall (N : net) (S : space) (motifs : list space) (seeds : list state) (sets : list (list state)), check_sets (node_attractors_b N S motifs) seeds sets = VOk -> length sets = length seeds /\ (forall (i : nat) (s : state) (X : list state), nth_error seeds i = Some s -> nth_error sets i = Some X -> (forall t : state, In t X <-> reach N s t) /\ in_attractor N s).
 Proof. exact check_sets_ok. Qed.
@@ -57,6 +62,7 @@ Proof. exact compute_attractors_sym_exact. Qed.
 Theorem C12_node_sets_exact : forall (fuel : nat) (N : net) (S : space) (avoid : list space) (nfvs : list nat) (Rinit : retained) (cfg : ccfg) (greedy simulation : bool) (tape : list (list state)) (stp : simtape) (res : list state) (log : list call) (sfuel : nat) (stapes : sym_tape) (seeds : list state) (sets : list (list state)), trap_space N S -> (forall a : space, In a avoid -> trap_space N a /\ subspace a S = true) -> NoDup nfvs -> (forall v : nat, In v nfvs -> v < nvars N) -> retained_total nfvs Rinit -> no_neg_walk N S nfvs -> (is_full S = false -> nfvs = [] -> avoid <> [] -> fixed_points_avoided N S avoid) -> compute_candidates fuel N S avoid nfvs Rinit cfg greedy simulation tape stp = (COk res, log) -> tape_ok N S avoid log tape -> walks_ok fuel N S avoid nfvs Rinit cfg greedy tape stp -> NoDup res -> compute_attractors_sym sfuel N S false avoid res stapes = Some (seeds, Some sets) -> one_to_one N S avoid seeds /\ length sets = length seeds /\ (forall (i : nat) (s : state) (X : list state), nth_error seeds i = Some s -> nth_error sets i = Some X -> forall t : state, In t X <-> reach N s t).
 Proof. exact node_seeds_exact. Qed.
 
+Print Assumptions C12_source_compute_attractors_symbolic.
 Print Assumptions C12_check_sets_ok.
 Print Assumptions C12_filter_exact.
 Print Assumptions C12_reach_list_sound.
